@@ -52,15 +52,22 @@ class Con:
         self.expr, self.kind, self.rhs, self.lhs = expr, kind, rhs, lhs
         self.grid, self.include_first, self.include_last, self.scale = grid, include_first, include_last, scale
 
-    def relation(self, e):
+    @staticmethod
+    def bound(b, get):
+        """a bound is a number, a vector of numbers (entries may be +-inf: no bound for that component) or an expression of
+        PARAMETERS only (E over 'p' / 'pc' / 'pcp')"""
+        return b.on(get) if isinstance(b, E) else b
+
+    def relation(self, e, get=None):
+        rhs, lhs = self.bound(self.rhs, get), self.bound(self.lhs, get)
         if self.kind == "le":
-            return e <= self.rhs
+            return e <= rhs
         if self.kind == "ge":
-            return e >= self.rhs
+            return e >= rhs
         if self.kind == "eq":
-            return e == self.rhs
+            return e == rhs
         if self.kind == "box":
-            return self.lhs <= (e <= self.rhs)
+            return lhs <= (e <= rhs)
         raise ValueError(self.kind)
 
 
@@ -320,7 +327,7 @@ class Spec:
                 c.scale_value = sc
             else:
                 c.scale_value = sc
-            decl = lambda c=c, e=e, sc=sc, kw=kw: ocp.subject_to(c.relation(e), include_first=c.include_first, include_last=c.include_last, scale=sc, **kw)
+            decl = lambda c=c, e=e, sc=sc, kw=kw: ocp.subject_to(c.relation(e, self.atom), include_first=c.include_first, include_last=c.include_last, scale=sc, **kw)
             decl() if ci < n_early_c else self._late_ops.append(decl)
         # objective
         n_early_o = len(self.objective) - min(len(self.objective), self.late.get("objective", 0))
